@@ -87,9 +87,60 @@ def _during_setup(I, w):
     return w in I.flags.get("_setup_writes", ())
 
 
+COND_ARGS = ["Sigma", "Lambda", "Sigma+Lambda", "Sigma+lndet", "Lambda+lndet", "full"]
+
+
+def ctor_ob(prog, cls, args):
+    r = prog.find_method(cls, "__post_init__")
+    anchor = f"{prog.relpath(prog.cls(r[0]).mod)}::{r[0]}.__post_init__"
+
+    def run():
+        I = build.new_interp()
+        Dy = sym("Dy")
+        Dx = Dy if drivers.is_identity(cls) else sym("Dx")
+        c = build.conditional(I, sym("R"), Dy, Dx, "c", cls=cls, args=args)
+        bad = []
+        for fld, d in conditional_invariant(c, f"{cls}({args}): "):
+            bad.append(f"{fld} violated after construction from ({args}): {d}")
+        for k in ("Sigma", "Lambda", "ln_det_Sigma"):
+            if not isinstance(c.f.get(k), Val):
+                bad.append(f"{k} is not set after construction from ({args})")
+        # the given arguments are kept as given
+        if bad:
+            raise Refuted("; ".join(str(b)[:300] for b in bad[:3]), anchor, [str(b)[:600] for b in bad])
+        return [], dict(funcs=funcs_of(I))
+    return Ob(f"ctor/{cls}/{args}", run, "every constructor argument combination yields Sigma*Lambda = I and ln_det_Sigma = LnDet(Sigma) (base case of the induction over histories)", anchor, group="ctor")
+
+
+def approx_ctor_ob(prog, cls):
+    r = prog.find_method(cls, "__post_init__")
+    anchor = f"{prog.relpath(prog.cls(r[0]).mod)}::{r[0]}.__post_init__"
+
+    def run():
+        from .approx import make_approx
+        I = build.new_interp()
+        c = make_approx(I, cls, "c")
+        bad = [f"{fld} violated: {d}" for fld, d in conditional_invariant(c, f"{cls}: ")]
+        if cls.startswith("Heteroscedastic"):
+            A = c.f["A"]
+            d = nf.diff(c.f["Sigma"], nf.einsum("ryk,rwk->ryw", A, A), what="Sigma = AA'")
+            if d:
+                bad.append(f"Sigma != A A': {d[:2]}")
+        if bad:
+            raise Refuted("; ".join(str(b)[:300] for b in bad[:3]), anchor)
+        return [], dict(funcs=funcs_of(I))
+    return Ob(f"ctor/{cls}", run, "constructed approximate conditional carries a coherent (Sigma, Lambda, ln_det_Sigma)", anchor, group="ctor")
+
+
 def obligations(tier):
     prog = model.load()
     obs = []
+    for cls in drivers.COND_CLASSES:
+        for args in COND_ARGS:
+            obs.append(ctor_ob(prog, cls, args))
+    for cls in ("LRBFGaussianConditional", "LSEMGaussianConditional", "HeteroscedasticExpConditional", "HeteroscedasticCoshM1Conditional",
+                "HeteroscedasticHeavisideConditional", "HeteroscedasticReLUConditional", "NNControlGaussianConditional"):
+        obs.append(approx_ctor_ob(prog, cls))
     for name, cls, ctx, drv in apis.api_list(prog):
         obs.append(api_ob(prog, name, cls, ctx, _mark_setup(drv)))
     return obs
@@ -135,7 +186,7 @@ def _run_with_marker(drv, made):
         Interp.construct = orig_construct
 
 
-FLOORS = {"group:invariant": 540}
+FLOORS = {"group:invariant": 540, "group:ctor": 31}
 LEVEL = "proof"
 EXPLANATION = ("Every public operation (API table shared with C12) is interpreted with operands that satisfy the representation invariant (declared "
                "inverse pairs / log-determinants); each returned object's cached fields are compared with the values defined by its natural parameters, "
